@@ -23,7 +23,7 @@ from symx.selftest import sparse_selftest
 from harness.common import bound, z, fval, isclose
 
 PROPERTY = "C04"
-FUNCTIONS = ["molgri.space.voronoi.RotobjVoronoi._calculate_center_distances (4D)", "molgri.space.voronoi.HalfRotobjVoronoi._calculate_N_N_array", "HalfRotobjVoronoi._get_upper_indices",
+FUNCTIONS = ["molgri.space.voronoi.AbstractVoronoi.get_reduced_vertices_regions", "molgri.space.voronoi.RotobjVoronoi._calculate_center_distances (4D)", "molgri.space.voronoi.HalfRotobjVoronoi._calculate_N_N_array", "HalfRotobjVoronoi._get_upper_indices",
              "molgri.space.voronoi.AbstractVoronoi._calculate_N_N_array", "AbstractVoronoi.get_all_voronoi_regions/get_dim",
              "molgri.space.utils.which_row_is_k", "utils.q_in_upper_sphere", "utils.distance_between_quaternions",
              "utils.angle_between_vectors", "utils.normalise_vectors", "utils.norm_per_axis"]
@@ -76,6 +76,9 @@ def shapes(tier, seed):
         for n in (2, 3, 4, 5):
             for rs in range(3 if tier == "quick" else 8):
                 out.append({"kind": "assembly", "dim": dim, "n": n, "rseed": seed * 100 + rs})
+    for dim in (3, 4):
+        for m in ((2, 3) if tier == "quick" else (2, 3, 4)):
+            out.append({"kind": "reduce", "dim": dim, "m": m})
     out.append({"kind": "distance", "via": "utils"})
     out.append({"kind": "distance", "via": "voronoi"})
     out.sort(key=lambda s: (s.get("N", 0), s.get("n", 0)))
@@ -94,7 +97,114 @@ def gen_G(N, gseed):
 
 
 def run_shape(shape):
-    return {"fold": run_fold, "assembly": run_assembly, "distance": run_distance}[shape["kind"]](shape)
+    return {"fold": run_fold, "assembly": run_assembly, "distance": run_distance, "reduce": run_reduce}[shape["kind"]](shape)
+
+
+# ------------------------------------------------------------------------------------------------------ vertex reduction
+def run_reduce(shape):
+    """real AbstractVoronoi.get_reduced_vertices_regions + which_row_is_k on SYMBOLIC vertex coordinates: any two vertices are either
+    exactly equal or clearly apart (the solver decides which, every duplicate structure is a path).  The reduced vertex list must be
+    the distinct vertices in order of first appearance and every region index must be re-mapped to the SAME geometric vertex --
+    adjacency counts shared reduced vertices, so a re-indexing slip changes neighbours silently."""
+    import molgri.space.voronoi as Vm
+    import molgri.space.utils as U
+    dim, m = shape["dim"], shape["m"]
+    V = [[z3.Real(f"v{i}_{c}") for c in range(dim)] for i in range(m)]
+    eng = Engine()
+    prover = Prover(timeout_ms=10000, budget_s=300)
+    acc = Acc(shape)
+    big = z3.RealVal("1/100")
+    for i in range(m):
+        for c in range(dim):
+            eng.assume_global(V[i][c] >= -2, V[i][c] <= 2)
+        for j in range(i + 1, m):
+            same = z3.And([V[i][c] == V[j][c] for c in range(dim)])
+            apart = z3.Or([z3.Or(V[i][c] - V[j][c] > big, V[j][c] - V[i][c] > big) for c in range(dim)])
+            eng.assume_global(z3.Or(same, apart))
+    proxy = NPProxy()
+    regions = [[i] for i in range(m)] + [list(range(m))[::-1]]
+
+    class Vor(Vm.AbstractVoronoi):
+        def __init__(self):
+            self.vertices = sarr([[SR(x) for x in row] for row in V])
+            self.regions = regions
+
+        def _create_centers_vertices_regions(self):
+            return None
+
+    def body():
+        with bound(Vm, np=proxy, print=noprint), bound(U, np=proxy, print=noprint):
+            return Vor().get_reduced_vertices_regions()
+
+    for path in eng.explore(body):
+        acc.begin(prover, path)
+        if path.kind == "exc":
+            acc.structural("no_exception", False, detail=repr(path.value) + (path.tb or "")[-600:], cex={"kind": "exception", "exc": type(path.value).__name__, "model": _model(path)})
+            continue
+        if acc.reachable is not True:
+            acc.reach(prover.satisfiable(path.premises))
+        newv, newr = path.value
+        mm = _model(path)
+        k = len(newv)
+        o2n = [int(r[0]) for r in newr[:m]]
+        ok = len(newr) == len(regions) and all(len(a) == len(b) for a, b in zip(newr, regions)) and all(0 <= x < k for x in o2n) and [int(x) for x in newr[m]] == o2n[::-1]
+        acc.structural("regions_reindexed_consistently", ok, detail={"new_regions": [[int(x) for x in r] for r in newr], "n_new_vertices": k}, cex={"model": mm})
+        if not ok:
+            continue
+        first_seen = []
+        for x in o2n:
+            if x not in first_seen:
+                first_seen.append(x)
+        acc.structural("order_of_first_appearance_kept", first_seen == list(range(k)), detail=o2n, cex={"model": mm})
+        claims = []
+        for i in range(m):
+            for c in range(dim):
+                claims.append((f"same_geometric_vertex[{i},{c}]", z(newv[o2n[i]][c]) == V[i][c]))
+        for a in range(k):
+            for b in range(a + 1, k):
+                claims.append((f"reduced_vertices_distinct[{a},{b}]", z3.Or([z(newv[a][c]) != z(newv[b][c]) for c in range(dim)])))
+        acc.add(prover.prove_all(path.premises, claims), make_cex=lambda r_: {})
+    return acc.result(eng.stats, prover.stats)
+
+
+def replay_reduce(cex):
+    import itertools as it
+    import molgri.space.voronoi as Vm
+    s = cex["shape"]
+    dim, m = s["dim"], s["m"]
+    model = cex.get("model", {}) or {}
+    rng = np.random.default_rng(8)
+    bad = []
+    cands = []
+    mv = np.array([[fval(model, f"v{i}_{c}", None) if fval(model, f"v{i}_{c}", None) is not None else float(rng.uniform(-1, 1)) for c in range(dim)] for i in range(m)])
+    cands.append(mv)
+    base = rng.uniform(-1, 1, size=(m, dim))
+    for labels in it.product(range(m), repeat=m):       # every duplicate structure
+        cands.append(np.array([base[l] for l in labels]))
+    regions = [[i] for i in range(m)] + [list(range(m))[::-1]]
+    for Vc in cands:
+        class Vor(Vm.AbstractVoronoi):
+            def __init__(self):
+                self.vertices = Vc.copy()
+                self.regions = regions
+
+            def _create_centers_vertices_regions(self):
+                return None
+        try:
+            newv, newr = Vor().get_reduced_vertices_regions()
+        except Exception as e:  # noqa: BLE001
+            bad.append(f"vertices {Vc.tolist()}: raised {e!r}")
+            continue
+        o2n = [int(r[0]) for r in newr[:m]]
+        distinct = []
+        for row in Vc:
+            if not any(np.array_equal(row, d) for d in distinct):
+                distinct.append(row)
+        if len(newv) != len(distinct) or any(not np.array_equal(newv[o2n[i]], Vc[i]) for i in range(m)) or [int(x) for x in newr[m]] != o2n[::-1] \
+                or any(not np.array_equal(a, b) for a, b in zip(newv, distinct)):
+            bad.append(f"vertices {Vc.tolist()}: reduced to {np.asarray(newv).tolist()} with index map {o2n}")
+    return {"reproduced": bool(bad), "detail": str(bad[:2])}
+
 
 
 # ------------------------------------------------------------------------------------------------------ fold
@@ -495,7 +605,7 @@ def replay_distance(cex):
 
 
 def replay(cex):
-    return {"fold": replay_fold, "assembly": replay_assembly, "distance": replay_distance}[cex["shape"]["kind"]](cex)
+    return {"fold": replay_fold, "assembly": replay_assembly, "distance": replay_distance, "reduce": replay_reduce}[cex["shape"]["kind"]](cex)
 
 
 def finding_key(cex):
